@@ -58,6 +58,9 @@ func (*SyncDiagnosticList).IsFailure
   props C11
   requires e != nil && dlLock(e) == 0
   ensures balance: dlLock(e) == 0
+  // the answer is about the list the critical section found, which is the list the caller sees
+  // next (nothing is written in between by this thread)
+  ensures answer: ret == e.DiagnosticList.IsFailure()
 
 func (*SyncDiagnosticList).Error
   props C11
